@@ -5,7 +5,11 @@ R11a writer/reader agreement: for every exporter/importer pair the field sequenc
      loop nesting and fields per iteration; (B) stream formats (PublishGroup / PublishState vs
      stream constructors): the same members in the same order with corresponding loops,
 R11b one radix for all integer text: every mpz_set_str / mpz_get_str / stream operator uses the
-     same base constant."""
+     same base constant,
+R11d the one integer text writer every exporter relies on (operator<< for mpz values) emits the
+     complete text mpz_get_str produced -- the NUL-terminated string itself, or a write whose length
+     is strlen of it -- from a buffer of at least sizeinbase + 2 octets (sign and terminator); a
+     length computed independently of the text can cut the sign or the last digit."""
 import re
 from ..facts import walk, AnalysisBroken
 
@@ -279,6 +283,7 @@ STREAM_PAIRS = [
 
 def run(ctx):
     Fmt.prog = ctx.prog
+    r11d(ctx)
     prog = ctx.prog
     n = 0
     # (A) delimiter formats: operator<< vs import
@@ -396,3 +401,62 @@ EXPLANATION = ("Writer/reader agreement decided from the source: for the delimit
                "sequence of members written equals the sequence of members read, loops included; all integer text uses one radix constant. "
                "Value-level losslessness (zero, negative, maximal length) is not decided.")
 ASSUMPTIONS = ["fields are delimited exactly by the literal delimiter characters", "nested objects count as one field on both sides"]
+
+
+def r11d(ctx):
+    from ..core import poly, padd
+    prog = ctx.prog
+    fs = [f for f in prog.by_q.get('operator<<', []) if len(f['params']) == 2 and '__mpz_struct' in f['params'][1]['t'] and f.get('body')]
+    if not fs:
+        from ..facts import AnalysisBroken
+        raise AnalysisBroken('operator<<(std::ostream&, mpz_srcptr) not found')
+    f = fs[0]
+    a = ctx.analysis(f)
+    T = a.T
+    gets = [ev for nid, ev in a.all_events('call') if ev[1] == 'mpz_get_str' and len(ev[2]) == 3]
+    if not gets:
+        ctx.note('R11d', 'R11d:writer', 'the integer writer no longer uses mpz_get_str; not evaluated', f)
+        ctx.floor('R11d', 0, 1)
+        return
+    g = gets[0]
+    valp = g[2][2]
+    base = g[2][1]
+    # capacity of the buffer handed to mpz_get_str
+    bufroot = g[2][0]
+    while T.op(bufroot) in ('agg', 'ix', 'upd'):
+        bufroot = T.node(bufroot)[1]
+    cap = a.alloc_size.get(bufroot)
+    okc = False
+    if cap is not None:
+        need = T.mk('sizeinbase', valp, base)
+        d = poly(T, cap)
+        padd(d, poly(T, need), -1)
+        rest = {m: c for m, c in d.items() if c}
+        okc = set(rest.keys()) <= {()} and rest.get((), 0) >= 2
+    (ctx.ok if okc else ctx.bad)('R11d', 'R11d:capacity', 'text buffer holds sizeinbase + 2 octets (sign and terminator)' if okc else
+                                 'the buffer handed to mpz_get_str is smaller than mpz_sizeinbase(value, base) + 2 (negative values overrun it)', f)
+    # what reaches the stream
+    whole = False
+    partial = None
+    for nid, ev in a.all_events('snd'):
+        v = ev[2]
+        vn = T.node(v)
+        if vn[0] == 'callr' and vn[1] == 'mpz_get_str':
+            whole = True
+        elif bufroot in T.subterms(v) and T.op(v) in ('agg', 'new', 'ctor', 'mc'):
+            whole = True            # out << buf  /  out << std::string(buf): the NUL-terminated text
+    for nid, ev in a.all_events('mcall'):
+        if ev[1].split('::')[-1] == 'write' and len(ev[3]) == 2 and bufroot in T.subterms(ev[3][0]):
+            ln = T.node(ev[3][1])
+            if ln[0] == 'callr' and ln[1] in ('strlen', 'std::strlen') and bufroot in T.subterms(ev[3][1]):
+                whole = True
+            else:
+                partial = T.show(ev[3][1], 3)
+    if partial is not None:
+        ctx.bad('R11d', 'R11d:complete', 'the integer text is written with a length (%s) that is not the length of the text mpz_get_str produced: '
+                'the sign or the last digit can be cut off' % partial, f)
+    elif whole:
+        ctx.ok('R11d', 'R11d:complete', 'the complete NUL-terminated text of mpz_get_str is written', f)
+    else:
+        ctx.note('R11d', 'R11d:complete', 'how the integer text reaches the stream was not recognised; not evaluated', f)
+    ctx.floor('R11d', sum(1 for r in ctx.results if r.rule == 'R11d' and r.status == 'ok'), 2)
